@@ -8,9 +8,10 @@
     Model.v (thread ids are arbitrary naturals; any number of threads).
     int64 overflow is excluded: values are in Z.
 
-    Guard (finding F-C02-1, recorded, not repaired): the theorems that say nothing is lost by a
-    delta reader carry [no_err h = true] - no observable callback returns an error.  Without it
-    they are false of the code as it is ([c02_delta_conservation_refuted]). *)
+    Finding F-C02-1 (a periodic reader skipped the export when a callback reported an error, after
+    the delta sums had been reset) is repaired in /repo (b162dd7, e0f719a): the theorems below carry
+    no callback-error guard.  What stays outside the model: a context that expires during the
+    collection (produce then returns nothing and resets nothing). *)
 From Verif Require Import Lib.Base Lib.MetricsModel C02.Spec C02.Model C02.Proofs C02.ProofsLTS C02.Sound.
 Open Scope Z_scope.
 
@@ -38,10 +39,10 @@ Theorem c02_every_reader : forall cfgs ninst sched s,
 Proof. exact lts_quiescent. Qed.
 Print Assumptions c02_every_reader.
 
-(** Sequential histories, no callback error: delta values delivered + what is still in the
-    aggregator = everything recorded. *)
+(** Sequential histories, with or without callback errors: delta values delivered + what is still
+    in the aggregator = everything recorded. *)
 Theorem c02_delta_conservation_seq : forall rc r i h,
-  r_delta rc = true -> no_err h = true ->
+  r_delta rc = true ->
   forall k, sum_outs k (stream rc r i h) + pval k (vals (stream_final rc r i h)) = total k (adds_of i h).
 Proof. exact delta_conservation. Qed.
 Print Assumptions c02_delta_conservation_seq.
@@ -50,8 +51,8 @@ Print Assumptions c02_delta_conservation_seq.
     reports exactly the attribute sets recorded since its previous delivery, each with the sum of
     those recordings. *)
 Theorem c02_exactly_one_collection : forall rc r i h,
-  r_delta rc = true -> no_err h = true ->
-  DeltaExact (cycles false rc r i h false false []) (stream rc r i h).
+  r_delta rc = true ->
+  DeltaExact (cycles false rc r i h false false false []) (stream rc r i h).
 Proof. exact exactly_one. Qed.
 Print Assumptions c02_exactly_one_collection.
 
@@ -59,7 +60,7 @@ Print Assumptions c02_exactly_one_collection.
     the delivery - with or without callback errors. *)
 Theorem c02_cumulative_total : forall rc r i h,
   r_delta rc = false ->
-  CumTotal (cycles false rc r i h false false []) (stream rc r i h).
+  CumTotal (cycles false rc r i h false false false []) (stream rc r i h).
 Proof. exact cumulative_total. Qed.
 Print Assumptions c02_cumulative_total.
 
@@ -88,49 +89,47 @@ Theorem c02_monotone_lts : forall cfgs ninst sched s,
 Proof. exact lts_monotone. Qed.
 Print Assumptions c02_monotone_lts.
 
-(** Shutdown of a periodic reader (first Shutdown of that reader, no callback error before it):
+(** Shutdown of a periodic reader (the first Shutdown call of that reader; callback failing or not):
     the final collection is delivered - every measurement recorded before the call is in some
     delivery - and nothing is delivered afterwards, whatever follows. *)
 Theorem c02_periodic_shutdown_final : forall rc r i h1 h2,
-  rk rc = RPeriodic -> no_err h1 = true -> forallb (fun o => negb (is_shutdown r o)) h1 = true ->
+  rk rc = RPeriodic -> forallb (fun o => negb (is_shutdown r o)) h1 = true ->
   let s := stream rc r i (h1 ++ Shutdown r :: h2) in
   s = stream rc r i (h1 ++ [Shutdown r]) /\
   (r_delta rc = true -> forall k, sum_outs k s = total k (adds_of i h1)) /\
-  (r_delta rc = false -> (0 < length s)%nat /\
-                         forall k, pget k (nth (length s - 1) s []) = one (cyc_total k (adds_of i h1))).
+  (r_delta rc = false -> adds_of i h1 <> [] ->
+     (0 < length s)%nat /\ forall k, pget k (nth (length s - 1) s []) = one (cyc_total k (adds_of i h1))).
 Proof. exact shutdown_final. Qed.
 Print Assumptions c02_periodic_shutdown_final.
 
 (** What the calls return. *)
-Theorem c02_return_codes : forall rc r h, stream_codes rc r h = codes rc r h false false.
+Theorem c02_return_codes : forall rc r h, stream_codes rc r h = codes rc r h false false false.
 Proof. exact stream_codes_spec. Qed.
 Print Assumptions c02_return_codes.
 
-(** Without the guard: what a delta reader delivers is exact for the measurements that were
-    not swallowed by a skipped delivery ([cycles true]); this is the precise content of F-C02-1. *)
-Theorem c02_delta_exact_lossy : forall rc r i h,
-  r_delta rc = true -> DeltaExact (cycles true rc r i h false false []) (stream rc r i h).
-Proof. exact delta_exact_lossy. Qed.
-Print Assumptions c02_delta_exact_lossy.
+(** The operational reading (a skipped delivery swallows what was collected for it) and the
+    property's reading coincide: a delivery is skipped only when there was nothing to deliver. *)
+Theorem c02_nothing_lost : forall rc r i h,
+  cycles true rc r i h false false false [] = cycles false rc r i h false false false [] /\
+  pending true rc r i h false false false [] = pending false rc r i h false false false [].
+Proof. intros. apply cycles_clean. apply quiet_init. Qed.
+Print Assumptions c02_nothing_lost.
 
-(** F-C02-1: the unguarded statements are false of the code as it is.  Witness: periodic delta
-    reader; Add 5; the callback starts failing; ForceFlush (collects, clears, skips the export);
-    the callback recovers; Add 7; ForceFlush exports 7.  Recorded 12, exported 7, nothing left. *)
-Theorem c02_delta_conservation_refuted :
-  exists rc r i h k, r_delta rc = true /\
-    sum_outs k (stream rc r i h) + pval k (vals (stream_final rc r i h)) <> total k (adds_of i h).
-Proof. exact delta_conservation_refuted. Qed.
-Print Assumptions c02_delta_conservation_refuted.
-
-Theorem c02_exactly_one_collection_refuted :
-  exists rc r i h, r_delta rc = true /\ stream_ok false rc r i h (stream rc r i h) = false.
-Proof. exact exactly_one_refuted. Qed.
-Print Assumptions c02_exactly_one_collection_refuted.
+(** F-C02-1 (fixed): the two histories that lost measurements before b162dd7 / e0f719a are now
+    delivered completely - Add 5; callback fails; ForceFlush; callback recovers; Add 7; ForceFlush
+    delivers 5 then 7, and Add 5; callback fails; Shutdown delivers 5. *)
+Theorem c02_fixed_histories :
+  stream refute_rc 0%nat 0%nat old_failing_h = [[(0%N, [5])]; [(0%N, [7])]] /\
+  stream_ok false refute_rc 0%nat 0%nat old_failing_h (stream refute_rc 0%nat 0%nat old_failing_h) = true /\
+  stream refute_rc 0%nat 0%nat old_failing_h2 = [[(0%N, [5])]] /\
+  stream_ok false refute_rc 0%nat 0%nat old_failing_h2 (stream refute_rc 0%nat 0%nat old_failing_h2) = true.
+Proof. exact old_failing_histories_now_ok. Qed.
+Print Assumptions c02_fixed_histories.
 
 (** The decidable check evaluated on the implementation's deliveries implies the Prop reading. *)
 Theorem c02_checker_sound : forall rc r i h outs, stream_ok false rc r i h outs = true ->
-  if r_delta rc then DeltaExact (cycles false rc r i h false false []) outs
-  else CumTotal (cycles false rc r i h false false []) outs.
+  if r_delta rc then DeltaExact (cycles false rc r i h false false false []) outs
+  else CumTotal (cycles false rc r i h false false false []) outs.
 Proof. exact stream_ok_sound. Qed.
 Print Assumptions c02_checker_sound.
 
